@@ -12,7 +12,7 @@ def with_limits(rng, sc):
     max_live_trade_count, multi_order_trades per strategy"""
     sc = json.loads(json.dumps(sc))
     for sp in sc["strategies"]:
-        sp["max_trade"] = rng.choice([1, 2, 3, 10 ** 6]); sp["max_live"] = rng.choice([1, 1, 2, 10 ** 6]); sp["multi"] = rng.random() < 0.5
+        sp["max_trade"] = rng.choice([0, 1, 2, 3, 10 ** 6, 10 ** 6]); sp["max_live"] = rng.choice([0, 1, 1, 2, 10 ** 6]); sp["multi"] = rng.random() < 0.5
     for ev in sc["script"]:
         for a in ev["acts"]:
             if a[0] == "place" and rng.random() < 0.6:
